@@ -159,10 +159,16 @@ void RefineVisitor::bvisit(const Pow &x)
             and not down_cast<const Number &>(*newexp).is_complex()) {
             if (is_true(is_positive(*inner_base, assumptions_))) {
                 result_ = pow(inner_base, mul(newexp, inner_exp));
-            } else {
+                return;
+            } else if (is_a<Integer>(*inner_exp)
+                       and down_cast<const Integer &>(*inner_exp)
+                                   .as_integer_class()
+                                       % 2
+                               == 0) {
+                // x**k = abs(x)**k only holds for an even integer k
                 result_ = pow(abs(inner_base), mul(newexp, inner_exp));
+                return;
             }
-            return;
         }
     }
     result_ = pow(newbase, newexp);
